@@ -237,11 +237,18 @@ pub fn build(ctx: BuildContext<SimBp>) -> libcnb::Result<BuildResult, SimErr> {
             metadata: ttable_to_toml(st),
         });
     }
+    if b.launch_sboms_first {
+        for sb in &b.launch_sboms {
+            rb = rb.launch_sbom(to_sbom(sb));
+        }
+    }
     for sb in &b.build_sboms {
         rb = rb.build_sbom(to_sbom(sb));
     }
-    for sb in &b.launch_sboms {
-        rb = rb.launch_sbom(to_sbom(sb));
+    if !b.launch_sboms_first {
+        for sb in &b.launch_sboms {
+            rb = rb.launch_sbom(to_sbom(sb));
+        }
     }
     rb.build()
 }
